@@ -2,7 +2,7 @@
    are distinct and every edge endpoint is declared: exactly the declared
    nodes, in order (used by C14: write-then-read keeps names and order). *)
 From Coq Require Import String List Bool ZArith NArith Arith Lia.
-From GV Require Import Base.Outcome Base.AMap Model.GState Model.Creation Proofs.CreationNoPanic.
+From GV Require Import Base.Outcome Base.AMap Model.GState Model.Creation Proofs.CreationNoPanic Proofs.CreationMono.
 Import ListNotations.
 
 Section Nodes.
@@ -58,7 +58,7 @@ Section Nodes.
     nodes_vec (fst (add_edge teqb tltb g e)) = nodes_vec g /\
     nodes_map (fst (add_edge teqb tltb g e)) = nodes_map g.
   Proof.
-    intros g e Hu Hv. unfold add_edge. rewrite Hu, Hv.
+    intros g e Hu Hv. rewrite <- (add_edge_mono_eq teqb tltb g e). unfold add_edge_mono. rewrite Hu, Hv.
     repeat match goal with
            | |- context [match ?x with _ => _ end] => destruct x
            end; cbn [fst nodes_vec nodes_map]; split; reflexivity.
